@@ -1,4 +1,4 @@
-\* C04 quick (incoming): 1 thread, <= 3 spans (filter verdict free), <= 3 frames, no tasks, nesting <= 3; incoming ids pushed as trace id + span id,
+\* C04 quick (incoming): 1 thread, <= 3 spans (filter verdict free), <= 3 frames, no tasks, nesting <= 3; incoming ids pushed as trace id + span id, Span nodes with explicit trace_id / span_parent / span_id included.
 \* as a trace id alone and as a span id alone (typed / hex / integer / SpanCtxt), spans and events under them, Frame::current; every transition replayed.
 SPECIFICATION SSpec
 CONSTANTS
@@ -7,6 +7,7 @@ CONSTANTS
     InstKind <- MC_Kind1
     NKeys = 3
     PropChoices <- MC_None
+    DupChoices <- MC_NoDups
     Kinds <- MC_None
     Forms <- MC_None
     MaxFrames = 3
@@ -18,8 +19,8 @@ CONSTANTS
     IncomingKinds <- MC_IncAll
     WithLazy = FALSE
     HasRng = TRUE
-    ExplicitKinds <- MC_ExNone
-    PushLastWins = TRUE
+    ExplicitKinds <- MC_ExBoth
+    PushLastWins = FALSE
     WithCancel = FALSE
     CancelOwnIds = FALSE
     CtxForms <- MC_Forms
